@@ -208,10 +208,12 @@ func (enc *Encoder) encodeValue(tag int, value reflect.Value) {
 var encodeFuncsCache = new(sync.Map)
 
 func encodeFuncFor(ty reflect.Type) func(*Encoder, int, reflect.Value) {
+	verifCachePoint(0, 0, ty)
 	if f, ok := encodeFuncsCache.Load(ty); ok {
 		return f.(func(*Encoder, int, reflect.Value))
 	}
 	f := encodeFunc(ty)
+	verifCachePoint(0, 1, ty)
 	encodeFuncsCache.Store(ty, f)
 	return f
 }
